@@ -36,3 +36,12 @@ From Signalo Require Base.Arith Model.Generic Proofs.Generic.
 Theorem C14_generic_ab : forall al be s x, (let '(s', y) := Signalo.Model.Generic.g_ab_step Signalo.Base.Arith.Qar al be s x in (Signalo.Proofs.Generic.ab_of s', y)) = Signalo.Model.Smooth.ab_step al be (Signalo.Proofs.Generic.ab_of s) x.
 Proof. exact Signalo.Proofs.Generic.gq_ab. Qed.
 Print Assumptions C14_generic_ab.
+
+(* No false alarm: the boolean reading of this property that the correspondence check evaluates on the IMPLEMENTATION's
+   outputs (Check/C14.v, verdict bit 2) can never fail on outputs that agree with the model (bit 1 clear); side conditions,
+   where there are any, are boolean and say which recorded observations the model comparison does not cover. *)
+From Coq Require Import NArith.
+From Signalo Require Base.Report Check.C14 Proofs.Sound_C14.
+Theorem C14_checker_no_false_alarm : forall c : Signalo.Check.C14.case, Signalo.Proofs.Sound_C14.wf c = true -> N.land (Signalo.Base.Report.code (Signalo.Check.C14.check c)) 3 <> 2%N.
+Proof. exact Signalo.Proofs.Sound_C14.C14_check_sound. Qed.
+Print Assumptions C14_checker_no_false_alarm.
